@@ -51,6 +51,8 @@ TREES = [
     "def h():\n    return [i for i in [j for j in k] if (lambda: i)]\nz = {a: b for a in (c for c in d)}",
     # two-operand containers that normalisation collapses to the surviving operand when the other one is removed
     "x = a.y or b\nz = c.d < e[0]\nmatch s:\n    case [p, q] | None: pass",
+    # containers whose elements live in two parallel lists (pairs), the last pair with children of its own
+    "d = {a: b.c, e: [g, h]}\nmatch s:\n    case {1: [p, q], 2: C(r)}: pass\n    case {3: t, **u}: pass",
 ]
 for _t in TREES:
     ast.parse(_t)
@@ -71,7 +73,7 @@ TARGETS = ('cur', 'parent', 'grand', 'prev', 'next', 'walked', 'future')
 OPS = ('replace', 'remove', 'replace-big')
 ACTIONS = [('send', False), ('send', True)] + [(op, t) for t in TARGETS for op in OPS] + \
     [('insert-before', 'cur'), ('insert-after', 'cur'), ('replace-slice', 'cur'), ('replace', 'cur-child'), ('replace-scope', 'cur'),
-     ('replace-scope', 'next')]
+     ('replace-scope', 'next'), ('del-slice', 'cur'), ('del-slice', 'cur-to-end'), ('del-slice', 'after-cur'), ('del-slice', 'before-cur')]
 ACTIONS_LITE = [('send', False), ('send', True), ('replace', 'cur'), ('remove', 'cur'), ('replace-big', 'cur'), ('remove', 'parent'),
                 ('replace', 'parent'), ('remove', 'next'), ('remove', 'prev'), ('replace', 'walked'), ('remove', 'future'),
                 ('insert-before', 'cur')]
@@ -287,6 +289,35 @@ def do_action(fst, root, g, item, act, yielded, default, Dkeys, st, allv, resent
                 resent.add(id(d))
         return 'send'
     try:
+        if kind == 'del-slice':  # the current element and / or its siblings deleted through the parent's slice interface
+            par, pf = g.parent, g.pfield
+            if par is None or pf.idx is None:
+                return None
+            pairs = {'Dict': ('keys', 'values'), 'MatchMapping': ('keys', 'patterns')}.get(par.a.__class__.__name__)
+            lists = pairs if pairs and pf.name in pairs else (pf.name,)
+            n = len(getattr(par.a, lists[0]))
+            i, j = {'cur': (pf.idx, pf.idx + 1), 'cur-to-end': (pf.idx, n), 'after-cur': (pf.idx + 1, n), 'before-cur': (0, pf.idx)}[tgt]
+            if i >= j:
+                return None
+            gone = [a_ for fld in lists for a_ in getattr(par.a, fld)[i:j] if a_ is not None]
+            gone_f = [(a2, getattr(a2, 'f', None)) for a_ in gone for a2 in ast.walk(a_)]
+            par_a = par.a
+            below = [(a_, getattr(a_, 'f', None)) for a_ in ast.walk(par_a)]
+            if pairs and pf.name in pairs:
+                par.put_slice(None, i, j, norm=True)  # default field: the combined key/value (key/pattern) pairs
+            else:
+                par.put_slice(None, i, j, pf.name, norm=True)
+            for a2, f2 in gone_f:
+                excused.add(('ast', id(a2)))
+                if f2 is not None:
+                    excused.add(id(f2))
+            if par.a is not par_a:  # normalisation collapsed the container onto its surviving operand: counts as a replaced parent
+                excused.add(id(par))
+                for a_, f_ in below:
+                    excused.add(('ast', id(a_)))
+                    if f_ is not None:
+                        excused.add(id(f_))
+            return True
         if tgt == 'cur':
             t = g
         elif tgt == 'cur-child':
